@@ -723,3 +723,8 @@ pub open spec fn eof_step1(a: AbsTok) -> Option<AbsTok> {
         State::CdataSectionEnd => Some(st(push_temp(push_temp(a, ']'), ']'), State::CdataSection)),
     }
 }
+
+/// one EOF step, or the state itself once only the EOF token remains to be emitted
+pub open spec fn eof1(a: AbsTok) -> AbsTok { match eof_step1(a) { Some(b) => b, None => a } }
+/// everything that happens at end of input (no EOF chain is longer than three steps)
+pub open spec fn eof_close(a: AbsTok) -> AbsTok { emit(eof1(eof1(eof1(eof1(a)))), OutTok::Eof) }
